@@ -1,10 +1,144 @@
-import Echse.Model.Stream
+/-
+  C02 — the exception filter (`next_evfilt`, `make_evfilt`) removes exactly the occurrences
+  whose start equals the start of an exception; durations are never looked at.
+
+  Setting as in C03: the event source `eops` refines lists `eabs s`, the exception source `xops`
+  lists `xabs s` (`Refines`), both of non-nul events in non-decreasing start order whose starts
+  are 64-bit words (`SrcOK`).  `filtOps eops xops fuel` is the filter as a stream, `fuel` bounds
+  the `check:` loop; the loop's measure `mu` counts the events and exceptions still to fetch,
+  every iteration pops one of them, so any `fuel ≥ #events + #exceptions + 1` is enough
+  (`FiltI`).  Statements only; the proofs are in Echse/Lemmas/Stream*.lean.
+-/
+import Echse.Lemmas.Stream6
 namespace C02
 open Echse.Stream
 
-/-- smoke (general statements replace this): a zero-duration occurrence named by an exception is removed
-(was finding D12 before the repair of next_evfilt) -/
+section
+variable {σ τ : Type} {eops : Ops σ} {xops : Ops τ} {eabs : σ → List Event} {xabs : τ → List Event}
+  {EI : σ → Prop} {XI : τ → Prop}
+
+/-! ### 1. filter_spec -/
+
+/-- the filter refines the list of the remaining events that start at no start of a remaining
+exception (`filtAbs`), for every state satisfying the invariant `FiltI` and for all durations -/
+theorem filter_spec (RE : Refines eops eabs EI) (RX : Refines xops xabs XI)
+    (hE : ∀ s, EI s → SrcOK (eabs s)) (hX : ∀ s, XI s → SrcOK (xabs s)) (fuel : Nat) :
+    Refines (filtOps eops xops fuel) (filtAbs eabs xabs) (FiltI eabs xabs EI XI fuel) :=
+  filt_refines RE RX hE hX fuel
+
+/-- `make_evfilt e x` satisfies the invariant if the fuel is at least
+`#events + #exceptions + 1`, and stands for `es.filter (fun e => !(xs.any (·.from_ == e.from_)))` -/
+theorem filter_make (RX : Refines xops xabs XI) (hX : ∀ s, XI s → SrcOK (xabs s))
+    {e : σ} {x : τ} (he : EI e) (hx : XI x) {fuel : Nat}
+    (hfuel : (eabs e).length + (xabs x).length + 1 ≤ fuel) :
+    FiltI eabs xabs EI XI fuel (Filt.make xops e x) ∧
+    filtAbs eabs xabs (Filt.make xops e x)
+      = (eabs e).filter (fun ev => !((xabs x).any (fun ex => ex.from_ == ev.from_))) :=
+  filt_make RX hX he hx hfuel
+
+/-- the loop's measure: the state invariant bounds it by the fuel, and the loop lemma
+`filtLoop_spec` (each iteration pops an event or an exception) runs under `mu ≤ fuel` -/
+theorem measure_le_fuel {fuel : Nat} {f : Filt σ τ} (h : FiltI eabs xabs EI XI fuel f) :
+    mu eabs xabs f ≤ fuel := Nat.le_trans (mu_le f) h.2
+
+/-- hence: the pops of any script deliver that filtered list in order, then nul -/
+theorem delivered (RE : Refines eops eabs EI) (RX : Refines xops xabs XI)
+    (hE : ∀ s, EI s → SrcOK (eabs s)) (hX : ∀ s, XI s → SrcOK (xabs s))
+    {e : σ} {x : τ} (he : EI e) (hx : XI x) {fuel : Nat}
+    (hfuel : (eabs e).length + (xabs x).length + 1 ≤ fuel) (sc : List Bool) :
+    popped (filtOps eops xops fuel) (Filt.make xops e x) sc =
+      deliver ((eabs e).filter (fun ev => !((xabs x).any (fun ex => ex.from_ == ev.from_)))) (pops sc) := by
+  obtain ⟨hI, habs⟩ := filter_make (eabs := eabs) (EI := EI) RX hX he hx hfuel
+  rw [(filter_spec RE RX hE hX fuel).popped_eq sc _ hI, habs]
+
+/-! ### 2. the property in words -/
+
+/-- an event whose start equals an exception start is never returned, by no call of any script -/
+theorem excluded_never_delivered (RE : Refines eops eabs EI) (RX : Refines xops xabs XI)
+    (hE : ∀ s, EI s → SrcOK (eabs s)) (hX : ∀ s, XI s → SrcOK (xabs s))
+    {e : σ} {x : τ} (he : EI e) (hx : XI x) {fuel : Nat}
+    (hfuel : (eabs e).length + (xabs x).length + 1 ≤ fuel) (sc : List Bool) :
+    ∀ ev ∈ answers (filtOps eops xops fuel) (Filt.make xops e x) sc, ev.isNul = false →
+      ev ∈ eabs e ∧ ∀ ex ∈ xabs x, ex.from_ ≠ ev.from_ := by
+  intro ev hev hn
+  obtain ⟨hI, habs⟩ := filter_make (eabs := eabs) (EI := EI) RX hX he hx hfuel
+  have := (filter_spec RE RX hE hX fuel).answers_mem sc _ hI ev hev hn
+  rw [habs, List.mem_filter] at this
+  refine ⟨this.1, ?_⟩
+  have hp := this.2
+  simp only [Bool.not_eq_true', List.any_eq_false, beq_iff_eq] at hp
+  exact hp
+
+/-- an event whose start equals no exception start is returned by every script with enough pops -/
+theorem unnamed_never_dropped (RE : Refines eops eabs EI) (RX : Refines xops xabs XI)
+    (hE : ∀ s, EI s → SrcOK (eabs s)) (hX : ∀ s, XI s → SrcOK (xabs s))
+    {e : σ} {x : τ} (he : EI e) (hx : XI x) {fuel : Nat}
+    (hfuel : (eabs e).length + (xabs x).length + 1 ≤ fuel) (sc : List Bool)
+    (hsc : (eabs e).length ≤ pops sc) :
+    ∀ ev ∈ eabs e, (∀ ex ∈ xabs x, ex.from_ ≠ ev.from_) →
+      ev ∈ popped (filtOps eops xops fuel) (Filt.make xops e x) sc := by
+  intro ev hev hnot
+  rw [delivered RE RX hE hX he hx hfuel]
+  apply mem_deliver_of_le
+  · have := List.length_filter_le (fun ev => !((xabs x).any (fun ex => ex.from_ == ev.from_))) (eabs e)
+    omega
+  · rw [List.mem_filter]
+    refine ⟨hev, ?_⟩
+    simp only [Bool.not_eq_true', List.any_eq_false, beq_iff_eq]
+    exact hnot
+
+/-- the algebra with C03: a filter whose events are a mux of sources `es` (rule-like,
+rdate-like, …) and whose exceptions are a mux of sources `xs` (exrule-like, exdate-like, …)
+delivers exactly `(⋃ es) \ {e | e.from_ ∈ starts (⋃ xs)}`, identical occurrences collapsed:
+what is popped lies in that set, and every event of that set — or one identical to it — is
+popped by a script with enough pops.  (Sources free of twins; no further guard.) -/
+theorem mux_filter_algebra (RE : Refines eops eabs EI) (RX : Refines xops xabs XI)
+    (hE : ∀ s, EI s → SrcOK (eabs s) ∧ NoTwin (eabs s)) (hX : ∀ s, XI s → SrcOK (xabs s) ∧ NoTwin (xabs s))
+    (es : List σ) (xs : List τ) (hes : ∀ s ∈ es, EI s) (hxs : ∀ s ∈ xs, XI s)
+    (fuel : Nat) (hfuel : total (es.map eabs) + total (xs.map xabs) + 1 ≤ fuel) (sc : List Bool) :
+    (∀ ev ∈ popped (filtOps (muxOps eops) (muxOps xops) fuel)
+          (Filt.make (muxOps xops) (Mux.make es) (Mux.make xs)) sc, ev.isNul = false →
+        (∃ s ∈ es, ev ∈ eabs s) ∧ ∀ t ∈ xs, ∀ ex ∈ xabs t, ex.from_ ≠ ev.from_) ∧
+    (total (es.map eabs) ≤ pops sc → ∀ s ∈ es, ∀ ev ∈ eabs s,
+        (∀ t ∈ xs, ∀ ex ∈ xabs t, ex.from_ ≠ ev.from_) →
+        ∃ ev' ∈ popped (filtOps (muxOps eops) (muxOps xops) fuel)
+          (Filt.make (muxOps xops) (Mux.make es) (Mux.make xs)) sc, evEq ev' ev = true) :=
+  filt_mux_algebra RE RX hE hX es xs hes hxs fuel hfuel sc
+
+end
+
+/-- the array stream over nul-free sorted lists of 64-bit starts is a source for the filter -/
+theorem lists_are_sources : Refines listOps id SrcOK ∧ ∀ l, SrcOK l → SrcOK (id l) :=
+  ⟨listOps_refines _ (fun _ h => h.tail), fun _ h => h⟩
+
+/-! ### 3. examples -/
+
+/-- packed 2020-01-01T09:00:00.000, 09:30, and the next two days 09:00 -/
+def t0 : Nat := 0x07e4010109000000
+def t0h : Nat := 0x07e40101091e0000
+def t1 : Nat := 0x07e4010209000000
+def t2 : Nat := 0x07e4010309000000
+
+/-- a zero-duration occurrence named by an exception is removed: nothing is delivered
+(finding D12 before the repair of `next_evfilt`: it was delivered) -/
+theorem zero_duration :
+    popped (filtOps listOps listOps 3) (Filt.make listOps [⟨t0, 0, 1⟩] [⟨t0, 0, 1⟩]) [true, true]
+      = [Event.nul, Event.nul] := by decide
+
+/-- the witness script of D12: three daily zero-duration occurrences, the second one excepted -/
 theorem zero_duration_excluded :
-    (filtNext listOps listOps 10 (Filt.make listOps [⟨5, 0, 1⟩, ⟨9, 0, 1⟩] [⟨5, 0, 1⟩]) true).1 = ⟨9, 0, 1⟩ := by decide
+    answers (filtOps listOps listOps 5)
+        (Filt.make listOps [⟨t0, 0, 1⟩, ⟨t1, 0, 1⟩, ⟨t2, 0, 1⟩] [⟨t1, 0, 1⟩]) [true, true, true, true]
+      = [⟨t0, 0, 1⟩, ⟨t2, 0, 1⟩, Event.nul, Event.nul] := by decide
+
+/-- an exception start strictly inside an occurrence's duration (09:30 within 09:00 + 1h) does
+not remove the occurrence (the other half of D12: it was removed) -/
+theorem inside_duration_delivered :
+    popped (filtOps listOps listOps 3) (Filt.make listOps [⟨t0, 3600000, 1⟩] [⟨t0h, 0, 1⟩]) [true, true]
+      = [⟨t0, 3600000, 1⟩, Event.nul] := by decide
+
+-- the hypotheses of the general theorems hold for these lists
+example : SrcOK [⟨t0, 0, 1⟩, ⟨t1, 0, 1⟩, ⟨t2, 0, 1⟩] ∧ SrcOK [⟨t1, 0, 1⟩] := by
+  unfold SrcOK NonNul Sorted Words; decide
 
 end C02
